@@ -102,6 +102,7 @@ type ReaderCli struct {
 func init() {
 	Register(&Scenario{
 		Name:     "reader",
+		LazyToo:  true,
 		Property: "C20",
 		Cfg:      vsched.Config{Horizon: 10 * time.Second},
 		Params: func(tier string) []Param {
